@@ -174,5 +174,7 @@ class FluxBinner(Binner):
         output['binned_wngrid'] = self._wngrid
         output['binned_wlgrid'] = 10000/self._wngrid
         output['binned_wnwidth'] = self._wngrid_width
-        output['binned_wlwidth'] = 1.0/self._wngrid_width
+        from taurex.util.util import wnwidth_to_wlwidth
+        output['binned_wlwidth'] = wnwidth_to_wlwidth(self._wngrid,
+                                                      self._wngrid_width)
         return output
